@@ -93,6 +93,15 @@ def _solve(args):
     smt2, timeout_ms, use_cvc5 = args
     if use_cvc5 == 'single':
         return _solve_z3((smt2, timeout_ms, 0))
+    if use_cvc5 == 'first':
+        # string-heavy obligations: z3's sequence solver is unstable on them, cvc5 (--strings-exp) usually decides at once;
+        # cvc5 is only used for proofs (unsat), refutations still need a z3 model
+        r0 = _solve_z3((smt2, min(timeout_ms, 4000), 0))
+        if r0[0] != 'unknown':
+            return r0
+        r3 = _solve_cvc5(smt2, timeout_ms / 1000.0)
+        if r3[0] == 'unsat':
+            return (r3[0], r3[1], r0[2] + r3[2], 'cvc5')
     r = _solve_z3((smt2, timeout_ms, 0))
     if r[0] == 'unknown':
         r2 = _solve_z3((smt2, timeout_ms, 7))
